@@ -1,0 +1,29 @@
+//go:build verif
+// +build verif
+
+package network
+
+import (
+	"github.com/LemoFoundationLtd/lemochain-core/chain/types"
+	"github.com/LemoFoundationLtd/lemochain-core/common"
+)
+
+// VerifCachedBlocks lists the blocks waiting in the out-of-order block cache (read only).
+func (pm *ProtocolManager) VerifCachedBlocks() []common.Hash {
+	var res []common.Hash
+	pm.blockCache.Iterate(func(b *types.Block) bool {
+		res = append(res, b.Hash())
+		return false
+	})
+	return res
+}
+
+// VerifCachedConfirms is the number of confirms waiting for their block.
+func (pm *ProtocolManager) VerifCachedConfirms() int {
+	return pm.confirmsCache.Size()
+}
+
+// VerifPeerCount is the number of registered peers (protocol handshake done).
+func (pm *ProtocolManager) VerifPeerCount() int {
+	return pm.peers.Size()
+}
